@@ -1,6 +1,6 @@
 (** Comparison of observations of the real code (written by the harness into
     cases/C12_*.v) with the model of Fs/Version.v, evaluated by vm_compute. *)
-From P9V Require Import Base.Str gen.ConstGen Fs.Version.
+From P9V Require Import Base.Str gen.ConstGen Fs.Version Fs.VersionText.
 Open Scope string_scope.
 Open Scope N_scope.
 
@@ -110,17 +110,23 @@ Definition client_clause (eff : N) (script : list vreply) (result : nc_result) (
 (** the property itself, evaluated on the observed behaviour only *)
 Definition property_holds (c : c12case) : bool :=
   match c with
-  (* C12 fixes the reply as a function of the request (proved: C12_unknown, C12_ok), so the
-     property predicate for a Tversion is that function itself *)
-  | CHandle _ _ isr _ _ _ _ => isr && agrees c
-  | CWire _ _ rt _ _ => (rt =? p9_msgRversion) && agrees c
+  (* the server clause as read off the text (Fs/VersionText.v: prefix test + elementary digit fold for the request,
+     "canonical" as a predicate on the reply string) — independent of the model's parser/printer; the model is
+     proved to satisfy it for every request (C12_reply_is_clause) *)
+  | CHandle msize s isr rm rv csm csv =>
+      isr && handle_clause msize s rm rv (if csm =? 0 then None else Some (csm, csv))
+  | CWire msize s rt rm rv => (rt =? p9_msgRversion) && reply_clause msize s rm rv
+  (* function-level ties (not clauses of the property): the real parseVersion / versionString against the model *)
   | CParse _ _ _ _ | CVstr _ _ => agrees c
   | CClient req script result _ later =>
       client_clause (if req =? 0 then p9_DefaultMessageSize else req) script result later
-  (* every Tversion of a session gets its Rversion, and the state after each accepted one is what that reply announced *)
+  (* every Tversion of a session gets its Rversion, each reply satisfies the clause, and the state after each request
+     is what an accepted reply announced / unchanged after a refused one *)
   | CSession reqs replies states =>
-      Nat.eqb (List.length replies) (List.length reqs) && agrees c
-  | CWireSession _ _ => agrees c
+      Nat.eqb (List.length replies) (List.length reqs) && session_clause (0, 0) reqs replies states
+  (* over the wire a Tversion frame longer than the negotiated msize ends the connection (C02): the replies that did
+     arrive satisfy the clause; how many arrive is the model's [wire_session] *)
+  | CWireSession reqs replies => replies_clause reqs replies && agrees c
   | _ => true
   end.
 
